@@ -510,9 +510,9 @@ func (rl *Shell) transposeWords() {
 	rl.selection.Visual(false)
 	transposeWith, wbpos, wepos, _ := rl.selection.Pop()
 
-	// We might be on the first word of the line,
-	// in which case we don't do anything.
-	if tbpos == 0 {
+	// We might be on the first word of the line, or have no word
+	// at all (empty line), in which case we don't do anything.
+	if tbpos <= 0 || tepos < 0 || wbpos < 0 || wepos < 0 {
 		rl.cursor.Set(startPos)
 		return
 	}
@@ -557,9 +557,9 @@ func (rl *Shell) shellTransposeWords() {
 	rl.viSelectAShellWord()
 	transposeWith, wbpos, wepos, _ := rl.selection.Pop()
 
-	// We might be on the first word of the line,
-	// in which case we don't do anything.
-	if wepos > tbpos {
+	// We might be on the first word of the line, or have no word
+	// at all (empty line), in which case we don't do anything.
+	if wepos > tbpos || tbpos < 0 || tepos < 0 || wbpos < 0 || wepos < 0 {
 		rl.cursor.Set(startPos)
 		return
 	}
@@ -1023,6 +1023,12 @@ func (rl *Shell) shellKillWord() {
 	rl.viSelectAShellWord()
 
 	_, epos := rl.selection.Pos()
+
+	// No shell word here (empty line, end of line).
+	if epos < startPos || epos > rl.line.Len() {
+		rl.selection.Reset()
+		return
+	}
 
 	rl.Buffers.Write([]rune((*rl.line)[startPos:epos])...)
 	rl.line.Cut(startPos, epos)
